@@ -1,6 +1,8 @@
 package main
 
 func init() {
+	registerProp(&PropCfg{ID: "C20", Families: []string{"LOCK", "SAFE"}, SweepGuarded: true,
+		Composition: "lock discipline per function => any interleaving of any number of goroutines is race-free on the guarded tables (standard argument; the Go memory model is trusted); Env.Store of scopes shared between goroutines is outside the statement"})
 	registerProp(&PropCfg{ID: "C05", Families: []string{"POST", "SAFE", "FRAME"},
 		Composition: "induction over the evaluation from FindPropAlongProtos/FindPropOwner/evalProp to every `o.name`; acyclicity of prototype chains is not needed for partial correctness; ancestors/bro/kindOf? are native one-liners over proto/bear (read, not verified)"})
 	registerProp(&PropCfg{ID: "C11", Families: []string{"POST", "SAFE", "FRAME"}, Replay: "index",
